@@ -81,6 +81,7 @@ func Pipe(nameA, nameB string) (*End, *End) {
 	a.peer, b.peer = b, a
 	a.id = csched.NewObj(func() uint64 { return uint64(len(a.buf)) })
 	b.id = csched.NewObj(func() uint64 { return uint64(len(b.buf)) })
+	csched.Alias(a.id, b.id) // a write at one end changes what a read at the other end sees
 	world.links++
 	return a, b
 }
